@@ -13,6 +13,8 @@ import (
 
 type C08Case struct {
 	Steps []C06Step `json:"steps"` // block (with Rem) | undo
+	// High > 0: a second light client follows the same forest embedded behind High opaque leaves
+	High uint64 `json:"high,omitempty"`
 }
 
 func genC08(t *rapid.T) C08Case {
@@ -65,6 +67,7 @@ func genC08(t *rapid.T) C08Case {
 			c.Steps = append(c.Steps, C06Step{Op: "block", B: &bb})
 		}
 	}
+	c.High = genHigh(t, lim.maxLeaves)
 	return c
 }
 
@@ -78,16 +81,24 @@ type c08Frame struct {
 	ud         u.UpdateData
 	leavesPost uint64
 	shape      blockShape
+	// embedded twin
+	bigPrevStump u.Stump
+	bigProof     u.Proof
+	bigUD        u.UpdateData
 }
 
-// KF-C08-1 (open): Proof.Undo of a block whose additions destroyed empty roots (UpdateData.ToDestroy
-// non-empty) can lose cached leaves / report stale positions.
-const kfC08Destroy = "KF-C08-1"
+// kfC08Destroy names the (now fixed) finding about undoing blocks with a non-empty ToDestroy. The
+// exclusion below is only active while known_findings.json lists that id as open; it is not.
+const kfC08Destroy = "KF-C08-2"
 
 func runC08(c C08Case) *Result {
 	res := &Result{}
 	f := &model.Forest{}
 	lc := &lightClient{}
+	big := &lightClient{stump: u.Stump{Roots: highRoots(c.High), NumLeaves: c.High}}
+	if c.High != 0 {
+		res.class(fmt.Sprintf("embedded:rows=%d", model.Rows(c.High+1)))
+	}
 	var stack []c08Frame
 	held := map[int]bool{} // slots the harness expects the client to hold (exact while no undo has dropped deleted leaves)
 	depth := 0
@@ -126,7 +137,24 @@ func runC08(c C08Case) *Result {
 			}
 			fr.ud = ud
 			fr.leavesPost = lc.stump.NumLeaves
+			if c.High != 0 {
+				fr.bigPrevStump = copyStump(big.stump)
+				fr.bigProof = u.Proof{Targets: embedAll(proof.Targets, v, c.High), Proof: cloneHashes(proof.Proof)}
+				bud, err := big.stump.Update(cloneHashes(delH), cloneHashes(addH), cloneProof(fr.bigProof))
+				if err != nil {
+					res.class("setup-failed")
+					return res
+				}
+				big.hashes, err = big.proof.Update(big.hashes, cloneHashes(addH), cloneU64(fr.bigProof.Targets), r32, bud)
+				if err != nil {
+					return res.failf("step %d: Proof.Update (embedded behind %d leaves) failed: %v", i, c.High, err)
+				}
+				fr.bigUD = bud
+			}
 			applyToModel(f, b)
+			if c.High != 0 && !highOK(c.High, f.N()) {
+				return res.failf("case error: %d leaves do not fit below the opaque trees of %d leaves", f.N(), c.High)
+			}
 			for _, s := range b.Del {
 				delete(held, s)
 			}
@@ -208,6 +236,45 @@ func runC08(c C08Case) *Result {
 				return res.failf("%s: %v", where, err)
 			}
 			held = expect
+			if c.High != 0 && !tainted {
+				bigBefore := map[Hash]bool{}
+				for _, h := range big.hashes {
+					bigBefore[h] = true
+				}
+				bw := fmt.Sprintf("%s, embedded behind %d opaque leaves (%d rows)", where, c.High, model.Rows(c.High+1))
+				nh, err := big.proof.Undo(uint64(fr.b.Add), fr.bigPrevStump.NumLeaves+uint64(fr.b.Add), cloneU64(fr.bigProof.Targets), cloneHashes(fr.delH), cloneHashes(big.hashes),
+					cloneU64(fr.bigUD.ToDestroy), cloneProof(fr.bigProof))
+				if err != nil {
+					return res.failf("%s failed: %v", bw, err)
+				}
+				big.hashes = nh
+				big.stump = fr.bigPrevStump
+				bgot := map[Hash]bool{}
+				for _, h := range big.hashes {
+					if added[h] {
+						return res.failf("%s keeps leaf %s which the undone block added", bw, shortH(h))
+					}
+					if !bigBefore[h] && !deleted[h] {
+						return res.failf("%s invents leaf %s", bw, shortH(h))
+					}
+					bgot[h] = true
+				}
+				for h := range bigBefore {
+					if !added[h] && !bgot[h] {
+						return res.failf("%s loses leaf %s which is live both before and after the block (held positions now %v)", bw, shortH(h), big.proof.Targets)
+					}
+				}
+				bexpect := map[int]bool{}
+				for sl, h := range f.Hashes {
+					if bgot[h] && !f.Dead[sl] {
+						bexpect[sl] = true
+					}
+				}
+				if err := checkCachedProofEmbedded(f, c.High, big.stump, big.hashes, big.proof, bexpect); err != nil {
+					return res.failf("%s: %v", bw, err)
+				}
+				res.count("embedded_undos", 1)
+			}
 			res.count("undos", 1)
 			if depth >= 2 {
 				res.count("undos_depth>=2", 1)
